@@ -61,9 +61,11 @@ struct Gen
     std::vector<int64_t> cands; // boundary instants worth landing on
     std::vector<int64_t> ttl_palette;
     std::set<int>        maybe_live;
+    std::map<int, uint32_t> last_val; // the value the plan wrote last under each key
     unsigned             w[(int)OpKind::COUNT]{};
     unsigned             tw[6]{}; // freeze, small, boundary, boundary-1, boundary+1, jump
     unsigned             splice_num{0}, nonlive_num{0};
+    bool                 big_ranges{false};
     int                  hot{2};
 
     Gen(uint64_t seed, const GenProfile& pf) : r(seed), prof(pf) {}
@@ -131,6 +133,8 @@ struct Gen
             n = (size_t)r.range(1, cap + 1);
         else
             n = (size_t)r.range(cap, 2 * cap);
+        if (big_ranges && r.chance(1, 3))
+            n = (size_t)r.range(40, 150);
         for (size_t i = 0; i < n; ++i)
         {
             Item it;
@@ -209,6 +213,10 @@ struct Gen
                     op.key = pick_key();
                 if (op.allow != ALLOW_BOTH)
                     splice = r.chance(splice_num, 4);
+                // now and then write the very value the key already holds (an update that changes nothing)
+                if (last_val.count(op.key) && (op.allow & ALLOW_UPDATE) && r.chance(1, 8))
+                    op.val = last_val[op.key];
+                last_val[op.key] = op.val;
                 if (op.allow != ALLOW_UPDATE)
                     note_write(op.key, op.ttl_ms);
                 else if (maybe_live.count(op.key))
@@ -360,6 +368,13 @@ struct Gen
             while ((int)c.capacity > prof.max_capacity);
         }
         c.universe = tr.has_capacity ? c.capacity + (uint32_t)r.range(1, 4) : (uint32_t)r.range(2, 8);
+        if (!tr.has_capacity && r.chance(1, 8))
+        {
+            // unbounded containers: now and then many keys, so that thresholds inside the
+            // implementation (batch sizes, caps on work per call) are crossed
+            c.universe = (uint32_t)r.range(70, 200);
+            big_ranges = true;
+        }
         hot        = tr.has_capacity ? (int)c.capacity + 1 : (int)c.universe;
         {
             static const double mlfs[] = {0.01, 0.25, 0.5, 1.0, 1.0, 1.0, 2.0, 8.0, 64.0};
@@ -482,6 +497,8 @@ struct Gen
         if (pr == "C09")
             w[(int)OpKind::insert] += 6;
 
+        if (big_ranges)
+            nl = std::min(nl, 1u); // looking up every absent key of a large universe after every step is wasteful
         unsigned wtot = 0;
         for (auto x : w)
             wtot += x;
